@@ -284,6 +284,14 @@ def judge(case: Dict[str, Any], res: Any) -> None:
                                     f"{t_trig}, graceful {case['graceful']})", **tag)
         if t_down < t_trig:
             raise Violation("shutdown_before_trigger", f"{t_down} < {t_trig}", **tag)
+        # the application is waited for (up to shutdown_timeout) while it shuts down
+        if case["shutdown"] in ("complete", "complete_stay") \
+                and case["shutdown_delay"] < case["shutdown_timeout"] and not any(
+                    s_["msg"].get("type") == "lifespan.shutdown.complete"
+                    and s_.get("outcome") == "ok" for s_ in L.sends):
+            raise Violation("lifespan_shutdown_cut_short", f"lifespan.shutdown at t={t_down}; "
+                            f"the application needed {case['shutdown_delay']}s of "
+                            f"{case['shutdown_timeout']}s and ended as {L.exit}", **tag)
     elif downs:
         raise Violation("shutdown_message_count", f"{len(downs)} for a lifespan app that left",
                         **tag)
